@@ -2,23 +2,23 @@
 import json
 
 CHECKS = {
- 'C01': ('exploration', 'seeded search over provider transaction histories x schedules in a full provider+consumer simulation with fault-free delivery; refinement of the consumer MDIB against the provider version history at every quiescent point; notification sets compared with transaction results',
+ 'C01': ('exploration', 'seeded search over provider transaction histories x schedules in a full provider+consumer simulation with fault-free delivery; refinement of the consumer MDIB against the provider version history at every quiescent point (in a share of the runs the initial load itself races with commits and stalled handlers); notification sets compared with transaction results',
          'sampled histories/schedules; aiohttp session, sockets and WS-Discovery are stubs; tutorial role providers not installed', '6 (C01)'),
  'C02': ('exploration', 'seeded search over transaction histories (incl. aborts at crash points, retries of the aborted operation, writes of stale entities, delete + re-create) x writer interleavings (deterministic simulation, world A); invariants inside the commit critical section and over the recorded version history',
          'sampled histories and schedules: evidence, not proof; CPython GIL semantics; canonical snapshots walk the library\'s _props metadata', '6 (C02)'),
  'C03': ('fault_enumeration', 'per sampled transaction history every crash point of every transaction body is injected (exception after each API step), plus raising pre_commit_handler, API-rejected calls and nested-path write-through probes on every handed-out object; MDIB snapshot (content, sizes, remembered versions of deleted handles) + lookup audit must equal the pre-state',
          'crash points = boundaries between API calls of the generated body; histories are sampled; use of transaction objects after the with-block is out of scope', '6 (C03)'),
- 'C06': ('exploration', 'seeded search over provider histories x delivery fault sequences (drop / duplicate / delay past later ones / replay by a store-and-forward middlebox, GetMdib racing with commits incl. a thread stall placed in the replay of buffered reports, SequenceId/InstanceId change) x schedules with thread stalls; invariants after every operation and refinement against the provider history at recovery points',
+ 'C06': ('exploration', 'seeded search over provider histories x delivery fault sequences (drop / duplicate / delay past later ones / replay by a store-and-forward middlebox, GetMdib racing with commits incl. a thread stall placed in the replay of buffered reports, a reload overtaking a report in flight, GetContextStates-based loading, SequenceId/InstanceId change) x schedules with thread stalls; invariants after every operation and refinement against the provider history at recovery points',
          'faults are sampled, not enumerated; the middlebox acknowledges every notification (provider-visible failures are C08); equality only demanded after faults stopped', '6 (C06)'),
- 'C11': ('exploration', 'seeded operation sequences on a MultiKeyLookup (table machine, 1-3 tasks) and on the provider MDIB tables with indexed-attribute changes and rejected operations; plus complete provider+consumer+middlebox sessions for the consumer tables (duplicated create parts = rejected insertions, description updates of indexed attributes); every index recomputed from the stored objects after each operation (the subscription table is audited in the C08 runs)',
+ 'C11': ('exploration', 'seeded operation sequences on a MultiKeyLookup (table machine, 1-3 tasks incl. concurrent readers, rejected insertions and re-indexing, duplicated 1:n keys) and on the provider MDIB tables with indexed-attribute changes and rejected operations; plus complete provider+consumer+middlebox sessions for the consumer tables (duplicated create parts = rejected insertions, description updates of indexed attributes); every index recomputed from the stored objects after each operation (the subscription table is audited in the C08 runs)',
          'sampled sequences; add_index on a non-empty table is not part of the claimed surface (the MDIB creates indices on empty tables)', '6 (C11)'),
- 'C04': ('exploration', 'seeded search over transaction histories x writer interleavings (1-4 writer tasks, lock and line granularity) with scripted recording subscribers; every received message validated against the bundled XSDs and compared with the commit-time version history',
+ 'C04': ('exploration', 'seeded search over transaction histories x writer interleavings (1-4 writer tasks, lock and line granularity) with scripted recording subscribers (some very slow, some joining while writers commit; stalls placed before the periodic store lock and inside the subscriber selection); every received message validated against the bundled XSDs and compared with the commit-time MDIB history (description reports against the MDIB snapshot of their version, periodic reports against their label)',
          'sampled; subscribers are scripted peers; wire elements parsed with the library container classes before canonicalisation', '6 (C04)'),
- 'C07': ('exploration', 'seeded search over getter x writer interleavings in the simulated provider; every Get answer is refined against the provider history entry of the MdibVersion it states',
+ 'C07': ('exploration', 'seeded search over getter x writer interleavings in the simulated provider (thread stalls placed right before and right after the MDIB lock, requests for handles that come and go); every Get answer is refined against the provider history entry of the MdibVersion it states',
          'sampled schedules at lock and (sampled) line granularity; answers parsed with the library reader', '6 (C07)'),
- 'C08': ('exploration', 'seeded search over sequences of Subscribe/Renew/GetStatus/Unsubscribe requests, transactions, virtual-clock advances across expiry, wall-clock jumps, endpoint failures, Unsubscribe racing with delivery to slow peers, and shutdown; a reference liveness model driven only by what the scripted subscribers observed decides per (commit, subscription) what had to / must not arrive, plus the wire-level order of UnsubscribeResponse and later notifications',
+ 'C08': ('exploration', 'seeded search over sequences of Subscribe/Renew/GetStatus/Unsubscribe requests, transactions, virtual-clock advances across expiry, wall-clock jumps, endpoint failures, Unsubscribe racing with delivery to slow peers, commits racing with shutdown (stalled sender), filter lists with any XML whitespace, and shutdown; a reference liveness model driven only by what the scripted subscribers observed decides per (commit, subscription) what had to / must not arrive, plus the wire-level order of UnsubscribeResponse and later notifications',
          'sampled; tolerance window around expiry; after an observed delivery failure a subscription (and those sharing its connection) is treated as uncertain; housekeeping grace 2.3 s', '6 (C08)'),
- 'C09': ('exploration', 'seeded search over operation calls (all kinds, direct/queued, scripted handler outcomes, unknown handles, bursts) x schedules x delivery faults (report delayed past / before the response, dropped, duplicated by middleboxes); legality of the invocation-state sequence per transaction on the provider emission order, completion of the consumer Future against what was delivered',
+ 'C09': ('exploration', 'seeded search over operation calls (all kinds, direct/queued, scripted handler outcomes, unknown handles, bursts) x schedules x delivery faults (report delayed past / before the response, dropped, duplicated, merged into multi-part reports by middleboxes; fire-and-forget calls; handler exceptions with control characters); legality of the invocation-state sequence per transaction on the provider emission order, completion of the consumer Future against what was delivered',
          'sampled; operation handlers are scripted stubs; a Future is only required to complete if its final report was delivered', '6 (C09)'),
  'C10': ('exploration', 'seeded search over sequences of SetContextState calls (through the real consumer/provider stack and SCO worker) and set_location calls (also concurrent, with background commits and a thread stall placed before the MDIB lock) x schedules; association invariants evaluated inside the commit critical section on consecutive history entries',
          'sampled; uses the tutorial context role provider (the anchored implementation); explicit non-associated proposals keep their value', '6 (C10)'),
@@ -26,15 +26,15 @@ CHECKS = {
          'sampled histories and handle / filter lists; for size constraints only soundness of the returned texts is demanded', '6 (C20)'),
  'C14': ('exploration', 'seeded search over discovery histories (publish / clear / search / adversary announcements with arbitrary metadata versions, missing parts and repeated ids, id-memory floods) on a simulated UDP network with loss, duplication and delay; reference matcher and table model evaluated after every message a node acts on',
          'sampled; UDP sockets simulated; announcements without AppSequence ignored as the library does; only rfc3986 and strcmp0 rules judged', '6 (C14)'),
- 'C15': ('exploration', 'same simulated discovery sessions; the virtual clock timestamps every queue entry and datagram, half of the runs force boundary outcomes of the random draws; per message: count, initial delay, first gap window, doubling with cap, send raster, loop-back suppression',
+ 'C15': ('exploration', 'same simulated discovery sessions; the virtual clock timestamps every queue entry and datagram, half of the runs force boundary outcomes of the random draws, some shrink the bounded send queue (tuning knob); per message: count, initial delay, first gap window, doubling with cap, send raster, loop-back suppression',
          'sampled draws (boundary-biased); send raster tolerance 0.12 s; loop-back judged while the id is within the 200-id memory', '6 (C15)'),
- 'C13': ('fault_enumeration', 'stream faults placed inside real requests of a simulated healthy session: truncation followed by EOF at every byte offset of the framing regions and of a sampled body window, wrong lengths, malformed chunking, 1-byte fragmentation, bad codings, structure-aware XML mutations and DOCTYPE/entity payloads, sent by a scripted raw client to provider and consumer endpoints; termination (EOF-spin counter), escape, response well-formedness, XXE canaries, unchanged state',
+ 'C13': ('fault_enumeration', 'stream faults placed inside real requests of a simulated healthy session: truncation followed by EOF at every byte offset of the framing regions and of a sampled body window, wrong lengths, malformed chunking, 1-byte fragmentation, bad codings, structure-aware XML mutations, unusual header values, DOCTYPE/entity payloads, replayed and inconsistent-but-valid notifications, sent by a scripted raw client to provider and consumer endpoints; termination (EOF-spin counter), escape, response well-formedness, XXE canaries, unchanged state, liveness of both parties afterwards',
          'truncation offsets complete inside the sampled window only; a silent open connection may keep a handler waiting (not decided); HTTP/0.9 request lines are answered by the standard library', '6 (C13)'),
- 'C17': ('exploration', 'randomised framing knobs (chunk sizes, codings per party, recv fragmentation) per simulated provider+consumer session plus scripted peers with sloppy Accept-Encoding headers and corrupt / unsupported codings; every HTTP message on the simulated wire is re-parsed by a strict RFC 7230 parser, decoded and compared with the application-layer bytes; Content-Encoding checked against the governing Accept-Encoding',
+ 'C17': ('exploration', 'randomised framing knobs (chunk sizes, codings per party and changed at runtime, recv fragmentation, chunking shared HTTP server) per simulated provider+consumer session plus scripted peers with sloppy Accept-Encoding headers and corrupt / unsupported codings; every HTTP message on the simulated wire is re-parsed by a strict RFC 7230 parser, decoded and compared with the application-layer bytes; Content-Encoding checked against the governing Accept-Encoding',
          'the stream part of the property is decided; parsing arbitrary Accept-Encoding strings in isolation is covered only through the header variants scripted peers send; aiohttp session is a stub', '6 (C17)'),
- 'C19': ('exploration', 'configuration matrix (provider TLS x consumer none/optional/enforced x own/shared HTTP server x alternative host name, enumerated over the batch) x seeded histories (incl. consumer restart and a downgrade attempt against a plaintext peer) and schedules in the simulated stack with modelled TLS contexts; every URL a TLS-configured party writes and every connection it opens is inspected in the network history; static check of mk_ssl_contexts with the repo test certificates',
+ 'C19': ('exploration', 'configuration matrix (provider TLS x consumer none/optional/enforced x own/shared (also plaintext) HTTP server x alternative host name, enumerated over the batch) x seeded histories (incl. consumer restart, retry after a failed handshake, a downgrade attempt against a plaintext peer, peer-supplied http addresses, raw TLS / plaintext peers reading what the provider advertises) and schedules in the simulated stack with modelled TLS contexts; every URL a TLS-configured party writes and every connection it opens is inspected in the network history; static check of mk_ssl_contexts with the repo test certificates',
          'TLS handshake/record layer is a model (which connection is wrapped with which context); certificates only in the static part', '6 (C19)'),
- 'C12': ('exploration', 'seeded operation histories (construct / parse with absent optional members / mk_copy / deepcopy / update_from_other_container / nested writes / in-place list appends / serialise) over all container and data-type classes against a reference model with one private snapshot per live instance and the start-of-process defaults (history half of the technique only: no schedule, clock or fault)',
+ 'C12': ('exploration', 'seeded operation histories (construct / parse with absent optional members / mk_copy / deepcopy / update_from_other_container / nested writes / in-place (also nested) list appends / changed extension elements / serialise / parsing the tree of a live instance) over all container and data-type classes against a reference model with one private snapshot per live instance and the start-of-process defaults (history half of the technique only: no schedule, clock or fault)',
          'sampled histories; single task; copy.copy of a container is not an operation of the model (shallow by language definition)', '6 (C12)'),
 }
 TECH = 'deterministic simulation with fault injection (seeded scheduler + virtual clock + simulated network, fork per run, ddmin replay)'
